@@ -258,3 +258,93 @@ func VerifC14Mismatch(kind, m, n, keyMode, tstMode int) {
 		vrt.Assert(zzC14IsIndex(out.val, want), "mismatch: wrong index")
 	}
 }
+
+// VerifC14SearchAlpha: search (fn 0) / mismatch (fn 1) with a longer pattern
+// (m >= 3) in a longer sequence (n >= 4) over a two value alphabet: the two
+// values v0 != v1 are symbolic (any two distinct fixnums, resp. ASCII
+// characters), which of the two stands at each position is a vrt.Choice, so
+// that every repetition pattern — self-overlapping patterns, partial matches
+// that overlap the real match — is explored (2^(m+n-1) paths; the first
+// pattern element is v0 without loss of generality).  No bounds, no
+// :key/:test; fe = 0: :from-end absent, 1: :from-end t.
+func VerifC14SearchAlpha(kind, m, n, fe, fn int) {
+	c := &zzC14Two{kind: kind, m: m, n: n}
+	c.a = make([]int64, m)
+	c.b = make([]int64, n)
+	var v [2]int64
+	if kind == zzC14String {
+		x0, x1 := vrt.Byte("vc0"), vrt.Byte("vc1")
+		vrt.Assume(x0 < 128 && x1 < 128 && x0 != x1)
+		v[0], v[1] = int64(x0), int64(x1)
+	} else {
+		v[0], v[1] = vrt.Int64("v0"), vrt.Int64("v1")
+		vrt.Assume(v[0] != v[1])
+	}
+	for i := 0; i < m; i++ {
+		if i == 0 {
+			c.a[i] = v[0]
+		} else {
+			c.a[i] = v[vrt.Choice("pa"+string(rune('0'+i)), 2)]
+		}
+	}
+	for i := 0; i < n; i++ {
+		c.b[i] = v[vrt.Choice("pb"+string(rune('0'+i)), 2)]
+	}
+	if fe != 0 {
+		c.feMode = 2
+	}
+	name := [...]string{"search", "mismatch"}[fn]
+	want := int64(-1)
+	diffAt := int64(0)
+	if fn == 0 {
+		// leftmost (from-end: rightmost) j with a[i] = b[j+i] for all i < m
+		for j := 0; j+m <= n; j++ {
+			all := true
+			for i := 0; i < m; i++ {
+				if !c.match(int64(i), int64(j+i)) {
+					all = false
+				}
+			}
+			if all && (want < 0 || fe != 0) {
+				want = int64(j)
+			}
+		}
+		vrt.Carve("C14-search-wrong-index", fe != 0 && 0 < m && want == 0)
+	} else {
+		lmin := m
+		if n < lmin {
+			lmin = n
+		}
+		if fe != 0 {
+			for i := 1; i <= lmin; i++ {
+				if want < 0 && !c.match(int64(m-i), int64(n-i)) {
+					want = int64(m - i + 1)
+					diffAt = int64(i)
+				}
+			}
+			if want < 0 && m != n {
+				want = int64(m - lmin)
+			}
+		} else {
+			for i := 0; i < lmin; i++ {
+				if want < 0 && !c.match(int64(i), int64(i)) {
+					want = int64(i)
+				}
+			}
+			if want < 0 && m != n {
+				want = int64(lmin)
+			}
+		}
+		vrt.Carve("C14-mismatch-from-end-index", 0 < diffAt && diffAt != want)
+	}
+	form := slip.List{slip.Symbol(name), zzC14Quote(zzC14Seq(kind, c.a)), zzC14Quote(zzC14Seq(kind, c.b))}
+	form = append(form, c.keywords()...)
+	out := zzC14Eval(slip.NewScope(), form)
+	vrt.Reach("compared")
+	vrt.Assert(out.class == zzC14Value, name+": no value for a valid call")
+	if want < 0 {
+		vrt.Assert(out.val == nil, name+": nil expected but a value was returned")
+	} else {
+		vrt.Assert(zzC14IsIndex(out.val, want), name+": wrong index (two value alphabet)")
+	}
+}
